@@ -245,6 +245,58 @@ fn observe_watchdog(script: Vec<u64>, ms: u64, job: impl FnOnce() -> Result<Sear
     }
 }
 
+fn obs_to_json(o: &Obs) -> Value {
+    json!({"status": o.status, "msg": o.msg, "iters": o.iters, "trees": o.trees, "routes": o.routes, "digest": o.digest, "trace": o.trace})
+}
+fn obs_from_json(v: &Value) -> Option<Obs> {
+    Some(Obs {
+        status: v["status"].as_str()?.to_string(),
+        msg: v["msg"].as_str()?.to_string(),
+        iters: v["iters"].as_u64()?,
+        trees: serde_json::from_value(v["trees"].clone()).ok()?,
+        routes: serde_json::from_value(v["routes"].clone()).ok()?,
+        digest: v["digest"].as_u64()?,
+        trace: serde_json::from_value(v["trace"].clone()).ok()?,
+    })
+}
+static CHILD_SEQ: std::sync::atomic::AtomicU64 = std::sync::atomic::AtomicU64::new(0);
+/// one search in a CHILD process of this binary (`c10 child <file>`) with its address space capped at 4 GB: a search
+/// that tries to reserve memory in proportion to a huge limit dies there (status "Abort") instead of taking the
+/// stream -- or the machine -- down.  `desc` = {world, query, script, and either "t" (a model) or "config" (JSON for
+/// TerminationModelBuilder::build)}.
+fn run_isolated(desc: &Value) -> Obs {
+    let n = CHILD_SEQ.fetch_add(1, std::sync::atomic::Ordering::SeqCst);
+    let path = std::env::temp_dir().join(format!("c10_child_{}_{}.json", std::process::id(), n));
+    std::fs::write(&path, desc.to_string()).unwrap();
+    let exe = std::env::current_exe().unwrap();
+    let out = std::process::Command::new("sh")
+        .arg("-c")
+        .arg("ulimit -v 4000000; exec \"$0\" child \"$1\"")
+        .arg(&exe)
+        .arg(&path)
+        .output();
+    let _ = std::fs::remove_file(&path);
+    match out {
+        Ok(o) if o.status.success() => serde_json::from_slice::<Value>(&o.stdout).ok().and_then(|v| obs_from_json(&v)).unwrap_or_else(|| obs_status("Abort", vec![])),
+        _ => obs_status("Abort", vec![]),
+    }
+}
+fn child_main(file: &str) {
+    let v: Value = serde_json::from_str(&std::fs::read_to_string(file).unwrap()).unwrap();
+    let w = world_from_json(&v["world"]);
+    let q = query_from_json(&v["query"]);
+    let script: Vec<u64> = v["script"].as_array().map(|a| a.iter().map(|x| x.as_u64().unwrap()).collect()).unwrap_or_default();
+    let o = if v.get("config").is_some() { run_built(&w, &q, &script, &v["config"]) } else { run_plain(&w, &q, &Entry { t: t_from_json(&v["t"]), script }) };
+    println!("{}", obs_to_json(&o));
+}
+fn run_plain_maybe_isolated(w: &World, q: &Query, e: &Entry, isolate: bool) -> Obs {
+    if isolate {
+        run_isolated(&json!({"world": world_to_json(w), "query": query_to_json(q), "script": e.script, "t": t_to_json(&e.t)}))
+    } else {
+        run_plain(w, q, e)
+    }
+}
+
 fn run_plain(w: &World, q: &Query, e: &Entry) -> Obs {
     let (w2, q2, t2) = (w.clone(), q.clone(), e.t.clone());
     observe(&e.script, false, move || {
@@ -379,6 +431,15 @@ fn gen_sweep(rng: &mut Rng, needed_it: u64, needed_sz: u64, cap: usize) -> Vec<E
     es.push(Entry { t: T::Runtime { lim: 3 * SEC, f: 1 }, script: vec![3 * SEC] });
     es.push(Entry { t: T::Runtime { lim: SEC, f: 2 }, script: vec![0, 2 * SEC, 0, 2 * SEC, 0, 0, 2 * SEC] });
     es.push(Entry { t: T::Runtime { lim: 0, f: 3 }, script: vec![] });
+    // "effectively unlimited" limits as operators write them (usize::MAX, i64::MAX): larger than anything the search
+    // needs, so the answer must be the unlimited one.  (Values in between -- 2^31 .. 2^53 -- could make a defective
+    // implementation exhaust memory and abort the process: they live in the isolated family huge_limits.)
+    for v in [u64::MAX, i64::MAX as u64] {
+        es.push(Entry { t: T::Size(v), script: vec![] });
+        es.push(Entry { t: T::Iter(v), script: vec![] });
+    }
+    es.push(Entry { t: T::Combined(vec![T::Size(u64::MAX), T::Iter(needed_it)]), script: vec![] });
+    es.push(Entry { t: T::Combined(vec![T::Iter(a), T::Size(u64::MAX - 1)]), script: vec![] });
     // zero frequency (configuration error: `iteration % 0` panics), alone and inside a combination
     if rng.chance(1, 4) {
         es.push(Entry { t: T::Runtime { lim: SEC, f: 0 }, script: vec![0] });
@@ -429,17 +490,33 @@ const HEADER10: &str = "From Coq Require Import ZArith NArith QArith List String
 // ------------------------------------------------------------------------------------------ stream limits
 
 fn add_limits_case(st: &mut Stream, family: &str, w: &World, q: &Query, entries: Option<Vec<Entry>>, rng: &mut Rng) {
+    add_limits_case_iso(st, family, w, q, entries, rng, false)
+}
+/// the huge limits of the isolated family: 2^31, 2^32, 2^53, i64::MAX, u64::MAX for both count kinds, alone and combined
+fn huge_entries(needed_it: u64) -> Vec<Entry> {
+    let mut es = vec![];
+    for v in [1u64 << 31, 1u64 << 32, 1u64 << 53, i64::MAX as u64, u64::MAX] {
+        es.push(Entry { t: T::Size(v), script: vec![] });
+        es.push(Entry { t: T::Iter(v), script: vec![] });
+        es.push(Entry { t: T::Combined(vec![T::Size(v), T::Iter(needed_it + 3)]), script: vec![] });
+    }
+    // the tightest member decides: a huge limit next to a small one of the same kind
+    es.push(Entry { t: T::Combined(vec![T::Size(u64::MAX), T::Size(2)]), script: vec![] });
+    es.push(Entry { t: T::Combined(vec![T::Size(1 << 53), T::Combined(vec![T::Size(1)])]), script: vec![] });
+    es
+}
+fn add_limits_case_iso(st: &mut Stream, family: &str, w: &World, q: &Query, entries: Option<Vec<Entry>>, rng: &mut Rng, isolate: bool) {
     let id = st.next_id();
     let unl = run_plain(w, q, &unlimited());
-    let entries = entries.unwrap_or_else(|| gen_sweep(rng, max_seg_len(&unl.trace), max_size(&unl.trace), 18));
-    let es: Vec<(Entry, Obs)> = entries.iter().map(|e| (e.clone(), run_plain(w, q, e))).collect();
+    let entries = entries.unwrap_or_else(|| if isolate { huge_entries(max_seg_len(&unl.trace)) } else { gen_sweep(rng, max_seg_len(&unl.trace), max_size(&unl.trace), 18) });
+    let es: Vec<(Entry, Obs)> = entries.iter().map(|e| (e.clone(), run_plain_maybe_isolated(w, q, e, isolate))).collect();
     let wq = format!("{} {}", coq_world(w, NumKind::F), coq_query(q, NumKind::F));
     let terms = vec![
         format!("TR.line_M FN {} {}%Z {} {}", default_fuel(w), id, wq, coq_list(&entries, coq_entry)),
         format!("let u := {} in TR.line_S FN {}%Z {} u {}", coq_obs(&unl), id, wq, coq_list(&es, |(e, o)| format!("({}, {})", coq_entry(e), coq_obs_rel(&unl, o)))),
     ];
     let line = format!("I {} {}", id, show_case(true, &unl, &es));
-    let desc = json!({"id": id, "stream": "limits", "family": family, "world": world_to_json(w), "query": query_to_json(q),
+    let desc = json!({"id": id, "stream": "limits", "family": family, "isolate": isolate, "world": world_to_json(w), "query": query_to_json(q),
                       "entries": entries.iter().map(entry_to_json).collect::<Vec<_>>(),
                       "unlimited": show_obs_full(&unl).chars().take(160).collect::<String>()});
     st.count(&format!("family:{}", family));
@@ -541,7 +618,7 @@ fn stream_limits(a: &Args) {
         let q = query_from_json(&case["query"]);
         let es: Vec<Entry> = case["entries"].as_array().unwrap().iter().map(entry_from_json).collect();
         let mut rng = Rng::new(0);
-        add_limits_case(&mut st, "replay", &w, &q, Some(es), &mut rng);
+        add_limits_case_iso(&mut st, "replay", &w, &q, Some(es), &mut rng, case["isolate"].as_bool().unwrap_or(false));
         st.finish();
         return;
     }
@@ -549,6 +626,13 @@ fn stream_limits(a: &Args) {
     for (name, w, q) in fixed_worlds() {
         let mut r = rng.fork();
         add_limits_case(&mut st, &name, &w, &q, None, &mut r);
+    }
+    // limits of 2^31 .. 2^64-1, each search in its own memory-capped child process
+    for (name, w, q) in fixed_worlds() {
+        if q.dir == Dir::Forward && ["chain", "star_degree_six_no_target", "edge_oriented_chain"].contains(&name.as_str()) {
+            let mut r = rng.fork();
+            add_limits_case_iso(&mut st, &format!("huge_limits_{}", name), &w, &q, None, &mut r, true);
+        }
     }
     while st.next_id() < a.n {
         let mut r = rng.fork();
@@ -917,7 +1001,11 @@ fn show_built(r: &Result<TerminationModel, CompassConfigurationError>) -> String
     }
 }
 fn hms(rng: &mut Rng) -> String {
-    format!("{}:{:02}:{:02}", rng.below(30), rng.below(60), rng.below(60))
+    match rng.below(4) {
+        0 => format!("{}:{:02}:{:02}", rng.below(30), rng.below(60), rng.below(60)),
+        1 => (*rng.pick(&["100:00:00", "999:59:59", "168:00:00", "1000:00:00", "00100:00:00", "0:99:99", "12345:60:60", "0:00:00"])).to_string(),
+        _ => gen_hms_text(rng),
+    }
 }
 fn gen_config(rng: &mut Rng, depth: u32) -> Value {
     let int = |rng: &mut Rng| -> Value {
@@ -1032,7 +1120,7 @@ fn hms_of(secs: u64) -> String {
 
 /// the sweep of CONFIGURATIONS of one case (configured limits 0..needed+2 of both count kinds, combinations, runtime
 /// budgets in whole seconds under one clock script, other spellings, negative numbers) and the clock script
-fn gen_config_sweep(rng: &mut Rng, needed_it: u64, needed_sz: u64) -> (Vec<Value>, Vec<u64>) {
+fn gen_config_sweep(rng: &mut Rng, needed_it: u64, needed_sz: u64) -> Vec<(Value, Vec<u64>)> {
     let mut js: Vec<Value> = vec![];
     for l in limit_range(rng, needed_it + 2, 14) {
         js.push(json!({"type": "iterations", "limit": l}));
@@ -1064,8 +1152,14 @@ fn gen_config_sweep(rng: &mut Rng, needed_it: u64, needed_sz: u64) -> (Vec<Value
     js.push(json!({"type": "combined", "models": [{"type": "solution_size", "limit": strict_sz}, {"type": "iterations", "limit": strict_it}, {"type": "solution_size", "limit": strict_sz}]}));
     // outside the property (negative numbers, missing field): whatever the builder does is only compared with the model
     js.push(json!({"type": "iterations", "limit": -1}));
-    js.push(json!({"type": "solution_size", "limit": -(1 + rng.below(5) as i64)}));
+    js.push(json!({"type": "solution_size", "limit": -1}));
+    js.push(json!({"type": "solution_size", "limit": -(2 + rng.below(5) as i64)}));
+    js.push(json!({"type": "combined", "models": [{"type": "solution_size", "limit": -1}, {"type": "iterations", "limit": a}]}));
     js.push(json!({"type": "iterations"}));
+    // "effectively unlimited" as operators write it: the largest value the builder accepts
+    js.push(json!({"type": "solution_size", "limit": i64::MAX}));
+    js.push(json!({"type": "iterations", "limit": i64::MAX}));
+    js.push(json!({"type": "combined", "models": [{"type": "solution_size", "limit": i64::MAX}, {"type": "iterations", "limit": needed_it}]}));
     // runtime budgets in whole seconds; the clock passes 1 s at iteration i0 and 4 s one iteration later
     let i0 = rng.below(needed_it + 1) as usize;
     let mut script: Vec<u64> = vec![];
@@ -1083,23 +1177,78 @@ fn gen_config_sweep(rng: &mut Rng, needed_it: u64, needed_sz: u64) -> (Vec<Value
     js.push(json!({"type": "combined", "models": [{"type": "query_runtime", "limit": "0:00:00", "frequency": 1},
         {"type": "combined", "models": [{"type": "iterations", "limit": needed_it + 9}, {"type": "query_runtime", "limit": "1:00:00", "frequency": 1}]}]}));
     js.push(json!({"type": "query_runtime", "limit": "0:00:01", "frequency": 0}));
-    (js, script)
+    let mut out: Vec<(Value, Vec<u64>)> = js.into_iter().map(|j| (j, script.clone())).collect();
+    // ---- time budgets over the whole grammar of the `h:mm:ss` notation, each under clocks placed around ITS budget
+    let mut texts: Vec<String> = vec!["100:00:00".into(), "999:59:59".into(), "168:00:00".into(), "1000:00:00".into(), "99:00:00".into(), "00:00:00".into()];
+    for _ in 0..2 {
+        texts.push(gen_hms_text(rng));
+    }
+    let fq = 1 + rng.below(3);
+    for txt in texts {
+        let Some(secs) = hms_seconds(&txt) else { continue };
+        let b = secs * SEC; // the configured budget in ns
+        // (i) the clock stays within the budget (half of it, nine tenths, exactly the budget): the search is answered
+        let within: Vec<u64> = (0..needed_it as usize + 2).map(|i| match i % 3 { 0 => b / 2, 1 => b / 10 * 9, _ => b }).collect();
+        out.push((json!({"type": "query_runtime", "limit": txt, "frequency": fq}), within.clone()));
+        // (ii) it passes the budget at iteration i0: stopped at the next scheduled check, the text names the budget
+        let i0 = rng.below(needed_it + 1) as usize;
+        let crossing: Vec<u64> = (0..needed_it as usize + 2).map(|i| if i < i0 { b / 10 * 9 } else { b + 1 + rng.below(SEC) }).collect();
+        out.push((json!({"type": "query_runtime", "limit": txt, "frequency": fq}), crossing.clone()));
+        out.push((json!({"type": "combined", "models": [{"type": "iterations", "limit": needed_it + 4}, {"type": "query_runtime", "limit": txt, "frequency": fq}]}), within));
+    }
+    // the same clock (30 h .. 150 h) under budgets of two and of three hour digits: success is monotone in the budget
+    let mono: Vec<u64> = (0..needed_it as usize + 2).map(|i| (30 + 40 * (i as u64 % 4)) * 3600 * SEC).collect();
+    for txt in ["9:00:00", "99:00:00", "100:00:00", "168:00:00", "1000:00:00", "99999:59:59"] {
+        out.push((json!({"type": "query_runtime", "limit": txt, "frequency": 1}), mono.clone()));
+    }
+    // strings outside the notation: the builder must refuse them (compared with the model; nothing runs)
+    for bad in [" 1:00:00", "1:00:00 ", "1:00:00\n", "1:0:00", "1:00:0", "1:00:00.5", "1:00", "::", ":00:00", "-1:00:00", "+1:00:00", "1:00:00:00", "1 :00:00", "1:000:00", "0x1:00:00", "1h", "3600", "xx100:00:00", "100:00:00xx"] {
+        out.push((json!({"type": "query_runtime", "limit": bad, "frequency": 1}), vec![0]));
+    }
+    out
 }
 
-fn add_config_run_case(st: &mut Stream, family: &str, w: &World, q: &Query, sweep: Option<(Vec<Value>, Vec<u64>)>, rng: &mut Rng) {
+/// the value of an `h:mm:ss` text as the documentation reads it (None: not in the notation); harness-side twin of the
+/// Coq spec parser, used only to place the clock scripts around the configured budget
+fn hms_seconds(t: &str) -> Option<u64> {
+    let p: Vec<&str> = t.split(':').collect();
+    if p.len() != 3 || p[0].is_empty() || p[1].len() != 2 || p[2].len() != 2 || !p.iter().all(|x| x.bytes().all(|c| c.is_ascii_digit())) {
+        return None;
+    }
+    Some(p[0].parse::<u64>().ok()? * 3600 + p[1].parse::<u64>().ok()? * 60 + p[2].parse::<u64>().ok()?)
+}
+/// a random text of the notation: 1..5 hour digits (leading zeros allowed), minutes and seconds 00..99
+fn gen_hms_text(rng: &mut Rng) -> String {
+    let nd = 1 + rng.below(5) as usize;
+    let mut h = String::new();
+    for i in 0..nd {
+        let d = if i == 0 && rng.chance(1, 3) { 0 } else { rng.below(10) };
+        h.push(char::from(b'0' + d as u8));
+    }
+    let two = |rng: &mut Rng| if rng.chance(1, 5) { 60 + rng.below(40) } else { rng.below(60) };
+    format!("{}:{:02}:{:02}", h, two(rng), two(rng))
+}
+
+
+
+fn add_config_run_case(st: &mut Stream, family: &str, w: &World, q: &Query, sweep: Option<Vec<(Value, Vec<u64>)>>, rng: &mut Rng, isolate: bool) {
     let id = st.next_id();
     let unl = run_plain(w, q, &unlimited());
-    let (js, script) = sweep.unwrap_or_else(|| gen_config_sweep(rng, max_seg_len(&unl.trace), max_size(&unl.trace)));
+    let sweep = sweep.unwrap_or_else(|| gen_config_sweep(rng, max_seg_len(&unl.trace), max_size(&unl.trace)));
     // per configuration: what the builder returned (text, Gallina term) and the search observed under the built model
     let mut shown: Vec<String> = vec![];
     let mut coq_cs: Vec<String> = vec![];
-    for j in &js {
+    for (j, script) in &sweep {
         let j2 = j.clone();
         let built = catch(move || TerminationModelBuilder::build(&j2, None));
         let (text, coq_b, obs) = match &built {
             Ok(r @ Ok(m)) => {
                 let t = of_tm(m);
-                let o = run_built(w, q, &script, j);
+                let o = if isolate {
+                    run_isolated(&json!({"world": world_to_json(w), "query": query_to_json(q), "script": script, "config": j}))
+                } else {
+                    run_built(w, q, script, j)
+                };
                 let e = Entry { t: t.clone(), script: script.clone() };
                 (format!("{} => {}", show_built(r), show_entry(&unl, &e, &o)), format!("(Ok {})", coq_t(&t)), Some(o))
             }
@@ -1113,13 +1262,17 @@ fn add_config_run_case(st: &mut Stream, family: &str, w: &World, q: &Query, swee
         if let Some(o) = &obs {
             st.count(&format!("run:{}", if o.status == "terminated" { "terminated" } else if same_result(o, &unl) { "same_as_unlimited" } else { "other" }));
         }
-        coq_cs.push(format!("({}, {}, {})", coq_json(j), coq_b, match &obs { Some(o) => format!("(Some {})", coq_obs_rel(&unl, o)), None => "None".to_string() }));
+        if j["type"].as_str().map(|t| t.eq_ignore_ascii_case("query_runtime")).unwrap_or(false) {
+            let hd = j["limit"].as_str().and_then(|t| t.split(':').next().map(|h| h.len())).unwrap_or(0);
+            st.count(&format!("runtime_text:{}", if j["limit"].as_str().and_then(hms_seconds).is_some() { format!("hour_digits_{}", hd) } else { "outside_notation".to_string() }));
+        }
+        coq_cs.push(format!("({}, {}, {}, {})", coq_json(j), coq_script(script), coq_b, match &obs { Some(o) => format!("(Some {})", coq_obs_rel(&unl, o)), None => "None".to_string() }));
         shown.push(text);
     }
     let wq = format!("{} {}", coq_world(w, NumKind::F), coq_query(q, NumKind::F));
     let terms = vec![
-        format!("TR.line_M_config FN {} {}%Z {} {} {}", default_fuel(w), id, wq, coq_script(&script), coq_list(&js, coq_json)),
-        format!("let u := {} in TR.line_S_config FN {}%Z {} {} u [{}]", coq_obs(&unl), id, wq, coq_script(&script), coq_cs.join("; ")),
+        format!("TR.line_M_config FN {} {}%Z {} {}", default_fuel(w), id, wq, coq_list(&sweep, |(j, sc)| format!("({}, {})", coq_json(j), coq_script(sc)))),
+        format!("let u := {} in TR.line_S_config FN {}%Z {} u [{}]", coq_obs(&unl), id, wq, coq_cs.join("; ")),
     ];
     let line = format!("I {} U{{{} tr={}}} {}", id, show_obs_full(&unl), show_list(&unl.trace, show_pair), shown.join(" | "));
     st.count(&format!("family:{}", family));
@@ -1127,8 +1280,23 @@ fn add_config_run_case(st: &mut Stream, family: &str, w: &World, q: &Query, swee
     if unl.trace.len() >= 3 {
         st.mark_nontrivial(&format!("{}|{}", world_to_json(w), query_to_json(q)));
     }
-    st.case(terms, vec![line], json!({"id": id, "stream": "config", "kind": "run", "family": family, "world": world_to_json(w), "query": query_to_json(q),
-                                      "script": script, "configs": js, "unlimited": show_obs_full(&unl).chars().take(160).collect::<String>()}));
+    st.case(terms, vec![line], json!({"id": id, "stream": "config", "kind": "run", "isolate": isolate, "family": family, "world": world_to_json(w), "query": query_to_json(q),
+                                      "configs": sweep.iter().map(|(j, _)| j.clone()).collect::<Vec<_>>(), "scripts": sweep.iter().map(|(_, sc)| sc.clone()).collect::<Vec<_>>(),
+                                      "unlimited": show_obs_full(&unl).chars().take(160).collect::<String>()}));
+}
+
+/// configured limits of 2^31 .. i64::MAX and negative ones (the builder's `as u64` / `as usize` wraps them to
+/// "effectively unlimited"); every search in its own memory-capped child process
+fn huge_configs(needed_it: u64) -> Vec<(Value, Vec<u64>)> {
+    let mut js = vec![];
+    for v in [1i64 << 31, 1i64 << 32, 1i64 << 53, i64::MAX, -1, -2] {
+        js.push(json!({"type": "solution_size", "limit": v}));
+        js.push(json!({"type": "iterations", "limit": v}));
+        js.push(json!({"type": "combined", "models": [{"type": "solution_size", "limit": v}, {"type": "iterations", "limit": needed_it + 3}]}));
+    }
+    js.push(json!({"type": "combined", "models": [{"type": "solution_size", "limit": i64::MAX}, {"type": "solution_size", "limit": 2}]}));
+    js.push(json!({"type": "solution_size", "limit": u64::MAX}));
+    js.into_iter().map(|j| (j, vec![])).collect()
 }
 
 fn stream_config(a: &Args) {
@@ -1140,9 +1308,11 @@ fn stream_config(a: &Args) {
         let case = &v["case"];
         let js = case["configs"].as_array().unwrap().clone();
         if case["kind"] == "run" {
-            let script: Vec<u64> = case["script"].as_array().unwrap().iter().map(|x| x.as_u64().unwrap()).collect();
+            let nums = |x: &Value| -> Vec<u64> { x.as_array().map(|a| a.iter().map(|y| y.as_u64().unwrap()).collect()).unwrap_or_default() };
+            // one clock script per configuration ("scripts"), or one for all ("script", older replay files)
+            let sweep: Vec<(Value, Vec<u64>)> = js.iter().enumerate().map(|(i, j)| (j.clone(), if case["scripts"].is_array() { nums(&case["scripts"][i]) } else { nums(&case["script"]) })).collect();
             let mut rng = Rng::new(0);
-            add_config_run_case(&mut st, "replay", &world_from_json(&case["world"]), &query_from_json(&case["query"]), Some((js, script)), &mut rng);
+            add_config_run_case(&mut st, "replay", &world_from_json(&case["world"]), &query_from_json(&case["query"]), Some(sweep), &mut rng, case["isolate"].as_bool().unwrap_or(false));
         } else {
             add_config_case(&mut st, "replay", js);
         }
@@ -1166,14 +1336,21 @@ fn stream_config(a: &Args) {
     for (name, w, q) in fixed_worlds() {
         if ["chain", "star_degree_six", "star_degree_six_no_target", "chain_unreachable", "edge_oriented_chain"].contains(&name.as_str()) {
             let mut r = rng.fork();
-            add_config_run_case(&mut st, &format!("run_{}", name), &w, &q, None, &mut r);
+            add_config_run_case(&mut st, &format!("run_{}", name), &w, &q, None, &mut r, false);
+        }
+    }
+    for (name, w, q) in fixed_worlds() {
+        if q.dir == Dir::Forward && ["chain", "star_degree_six_no_target"].contains(&name.as_str()) {
+            let unl = run_plain(&w, &q, &unlimited());
+            let mut r = rng.fork();
+            add_config_run_case(&mut st, &format!("run_huge_limits_{}", name), &w, &q, Some(huge_configs(max_seg_len(&unl.trace))), &mut r, true);
         }
     }
     while st.next_id() < a.n {
         let mut r = rng.fork();
-        if st.next_id() % 3 == 0 {
+        if st.next_id() % 4 == 0 {
             let (w, q, family) = gen_world_query(&mut r);
-            add_config_run_case(&mut st, &format!("run_{}", family), &w, &q, None, &mut r);
+            add_config_run_case(&mut st, &format!("run_{}", family), &w, &q, None, &mut r, false);
         } else {
             let n = 1 + r.below(3) as usize;
             add_config_case(&mut st, "random", (0..n).map(|_| gen_config(&mut r, 2)).collect());
@@ -1190,6 +1367,7 @@ fn main() {
         "ksp" => stream_ksp(&a),
         "pred" => stream_pred(&a),
         "config" => stream_config(&a),
+        "child" => child_main(&a.extra[0]),
         "probe" => {
             for (name, w, q) in fixed_worlds() {
                 let unl = run_plain(&w, &q, &unlimited());
